@@ -243,13 +243,14 @@ CLAIMED["C17"] = dict(
 
 CLAIMED["C01"] = dict(
     text="Lean theorem C01_core (Props/C01.lean): for the core fragment - Booleans and integers of EVERY width, literals, "
-         "variables, !, unary -, +, -, <, >, ==, !=, & | ^ on Booleans, && and ||, if/else, blocks with let - and for every "
+         "variables, !, unary -, +, -, <, >, <=, >=, ==, !=, & | ^ on Booleans, && and ||, `as` between all these types, "
+         "if/else, blocks with let - and for every "
          "program body, environment of well-typed values and fuel: if the source semantics (Model/SrcSem.lean) return a value, "
          "the bit-level evaluation Bit.bitStmts - which follows compile.rs construct by construct and uses the bit-list "
          "operators of Model/Arith.lean - returns exactly the encoding of that value and no panic; if they fail it reports "
          "exactly that failure (first failing operation). The proof rests on the all-width correctness of the adder, "
-         "subtractor, comparator, equality and negation circuits (Proofs/Arith*.lean, BitOps.lean). PARTIAL: the fragment "
-         "excludes casts, *, /, %, shifts, bitwise operators on integers, aggregates, match, loops, mutation and calls; for "
+         "subtractor, comparator, equality, negation and cast circuits (Proofs/Arith*.lean, BitOps.lean). PARTIAL: the "
+         "fragment excludes *, /, %, shifts, bitwise operators on integers, aggregates, match, loops, mutation and calls; for "
          "those, and for the step from Bit.bitStmts to real gates, the property is explored: generated programs (the "
          "generator builds the syntax tree itself) are compiled as SSA and register circuit with and without de-duplication "
          "and compared with the Lean source semantics on 6 argument tuples each; programs of the fragment are additionally run "
